@@ -61,7 +61,31 @@ Definition out_agree cmp (a b : pout) : bool :=
   end.
 
 Definition tie_bits (c : pcase) : bool := out_agree f_same (model_out c) (pc_out c).
-Definition tie_tol (c : pcase) : bool := out_agree f_tol (model_out c) (pc_out c).
+
+(* A threshold that sits exactly on a computed cumulative sum or intensity is a knife edge: a rewrite that changes
+   the last bit of that sum (multiply by the reciprocal vs divide, fused multiply-add vs two roundings) may decide
+   it the other way while every property still holds.  The tie therefore also accepts the model's answer at the
+   threshold moved by one part in 10^12 either way. *)
+Definition nudge (t : float) (k : Z) : float :=
+  match k with
+  | 0%Z => t
+  | Zpos _ => (t + PrimFloat.abs t * 0x1p-40 + 0x1p-1000)%float
+  | Zneg _ => (t - PrimFloat.abs t * 0x1p-40 - 0x1p-1000)%float
+  end.
+Definition nudged_ops (o : pop) : list pop :=
+  match o with
+  | OpTrunc t => [OpTrunc (nudge t 1); OpTrunc (nudge t (-1))]
+  | OpIgnore t => [OpIgnore (nudge t 1); OpIgnore (nudge t (-1))]
+  | OpIncr t => [OpIncr (nudge t 1); OpIncr (nudge t (-1))]
+  | OpFused a b s => [OpFused (nudge a 1) b s; OpFused (nudge a (-1)) b s; OpFused a (nudge b 1) s; OpFused a (nudge b (-1)) s;
+                      OpFused (nudge a 1) (nudge b 1) s; OpFused (nudge a 1) (nudge b (-1)) s;
+                      OpFused (nudge a (-1)) (nudge b 1) s; OpFused (nudge a (-1)) (nudge b (-1)) s]
+  | _ => []
+  end.
+Definition with_op (c : pcase) (o : pop) : pcase := mkPC (pc_id c) (pc_exact c) (pc_pat c) o (pc_out c) (pc_step c).
+Definition tie_tol (c : pcase) : bool :=
+  out_agree f_tol (model_out c) (pc_out c)
+  || existsb (fun o => out_agree f_tol (model_out (with_op c o)) (pc_out c)) (nudged_ops (pc_op c)).
 
 (* ---- the properties' specifications, evaluated exactly on the implementation's output ---- *)
 Open Scope Q_scope.
